@@ -92,6 +92,8 @@ def eighA [Neg R] (K : Kernels R) (a : Arr R) : Except Err (BVec R × Arr R) := 
   let a := if a.fermi && !a.phases.isEmpty then a.phaseSync else a
   if a.ndim != 2 then throw Err.notimpl
   if a.charge != a.sym.zero then throw Err.value
+  -- numpy's eigh raises LinAlgError (a ValueError) on a non-square block
+  if a.blocks.any (fun (_, b) => b.shape.getD 0 0 != b.shape.getD 1 0) then throw Err.value
   let fac := a.blocks.map (fun (s, b) => (s, K.eigh b))
   let evals := adict (fac.map (fun (s, f) => (s.getD 1 (0, 0), f.1)))
   let evecs := fac.map (fun (s, f) => (s, f.2))
@@ -103,6 +105,9 @@ def eighA [Neg R] (K : Kernels R) (a : Arr R) : Except Err (BVec R × Arr R) := 
 /-- `solve(a, b)` (and `solve_fermionic`) for a matrix `a` and a rank-1 array `b` -/
 def solveA (K : Kernels R) (a b : Arr R) : Except Err (Arr R) := do
   if a.ndim != 2 || b.ndim != 1 then throw Err.notimpl
+  -- numpy's solve raises LinAlgError (a ValueError) on a non-square or mismatching block
+  if a.blocks.any (fun (s, arr) => (alookup b.blocks [s.getD 0 (0, 0)]).isSome
+      && arr.shape.getD 0 0 != arr.shape.getD 1 0) then throw Err.value
   let xBlocks := adict (a.blocks.filterMap (fun (s, arr) =>
     match alookup b.blocks [s.getD 0 (0, 0)] with
     | some bb => some ([s.getD 1 (0, 0)], K.solve arr bb)
